@@ -580,8 +580,12 @@ class RangeDomain:
             if "int" in c:
                 return int(c["int"])
             if "bytes_hex" in c:
-                if re.fullmatch(r"\[u8; \d+\]", (c.get("ty") or "").strip()):
+                if re.fullmatch(r"\[u8; \d+\]", (op.get("ty") or c.get("ty") or "").strip()):
                     return Tup(list(bytes.fromhex(c["bytes_hex"])))
+                from core.bytex import shape_bytes, Tup as _BT
+                sv = shape_bytes((op.get("ty") or "").strip(), bytes.fromhex(c["bytes_hex"]))
+                if isinstance(sv, _BT) and all(isinstance(x, int) for x in sv):
+                    return Tup(list(sv))          # a table of wider integers (masks, …), element by element
                 # any other table: its elements as rustc evaluated them, when the fact file has them (one entry per element, not
                 # per byte); the interval analysis needs the length and the integer payloads
                 tree = self.F.const_tree(op["uneval_def"])
